@@ -181,6 +181,43 @@ CHECKS = {
              "load_ragged_time_series(header=True) does not skip the header; load_patterns raises IndexError on a "
              "one-column data row.",
         design="§5 C20"),
+    "C09": dict(
+        text="Lean 4 proofs: pitch_class_to_semitone depends only on (letter + #sharps - #flats) mod 12 for accidental runs "
+             "of any length; all 12 chord comparison rules are invariant under joint transposition for every reachable "
+             "pair incl. N and X; the key score takes values in {0, .2, .3, .5, 1}, equals the documented table and is "
+             "invariant under enharmonic respelling, letter case and joint transposition for all key pairs (finite type, "
+             "general proofs + string front end); in the log-domain pitch models, joint scaling of all frequencies leaves "
+             "melody / multipitch / transcription scores unchanged, octave shifts of the estimate leave chroma scores "
+             "unchanged (chroma distance is even and 1200-periodic), RPA/RCA ignore the estimated voicing; oracles on "
+             "the real code for all of these (octaves exactly, other factors with margins), key pairs exhaustively.",
+        note="log2 is trusted (whole octaves rely on NumPy's log2 being exact up to cancellation; checked by the oracle). "
+             "Label-level respelling and chord.evaluate transposition rest on the oracle plus C10's encode model. Known "
+             "findings: a frequency exactly at the 10 Hz base is treated as 'no pitch'.",
+        design="§5 C09"),
+    "C11": dict(
+        text="Lean 4 proofs over encodings (root, 12-bit bitmap, bass) for ALL pairs of reachable encodings (not by "
+             "enumeration): every rule returns -1/0/1, -1 depends on the reference alone, cmp a a != 0, "
+             "tetrads_inv <= tetrads <= triads <= thirds <= root pointwise, each _inv rule below its plain rule, "
+             "majmin => triads, sevenths => tetrads, a tetrads match is never a mirex mismatch, the vocabularies of "
+             "majmin / sevenths / mirex / *_inv, X always ignored; the 12 real functions are compared with the model "
+             "on ~5,200 labels (2,064 distinct encodings) and the lattice is asserted directly on the real functions.",
+        note="The model works on encodings produced by the real chord.encode (C10 proves encode's range, which is the "
+             "Reachable predicate). Known finding: majmin_inv compares a maj/min reference whose bass is 8-11 semitones "
+             "above the root although the docstring requires the bass to be a chord tone.",
+        design="§5 C11"),
+    "C15": dict(
+        text="PARTIAL. Lean 4 proofs about an effect abstraction of the Python source REGENERATED on every run: a "
+             "flow-sensitive may-alias / in-place-write / np.empty analysis is proved sound against a big-step "
+             "semantics (safe => every execution, incl. early return and exceptions, leaves every pre-existing location "
+             "unchanged and writes no global state), history invariant for any sequence of safe API calls, and the "
+             "generated summaries of the public functions are checked safe / initialised / free of global writes by "
+             "decide; the abstraction is validated at run time for all 153 public functions (deep snapshots, repeat "
+             "calls, read-only inputs, poisoned np.empty, shuffled call histories).",
+        note="The translator's classification table (which NumPy/SciPy/builtin calls allocate, return views or write in "
+             "place) is trusted and validated, not verified. Bit-identical repeatability is observed, not modelled. "
+             "Known findings: freq_to_voicing writes the caller's voicing array; adjust_intervals/adjust_events and "
+             "chord.evaluate append to the caller's label list; bss_eval_images_framewise returns uninitialised isr.",
+        design="§5 C15"),
 }
 
 NOT_YET = "check not built yet (work in progress; see DESIGN.md §9)"
